@@ -241,14 +241,13 @@ def c18_4(ctx, ss):
                                                        f"{cls_}.make_lineshape handles LS.{m}" if handled else f"{cls_}.make_lineshape has no branch for LS.{m}: such amplitudes cannot be emitted")
     ctx.floor("C18.4", "LS members", len(ls), 4)
     # which tag gives which kind
-    wantk = {"RBW": ("not self.lineshape", True), "GSpline": ("self.lineshape == 'GSpline.EFF'", True), "kMatrix": ("self.lineshape.startswith('kMatrix')", True),
+    wantk = {"RBW": ("self.lineshape", False), "GSpline": ("self.lineshape == 'GSpline.EFF'", True), "kMatrix": ("self.lineshape.startswith('kMatrix')", True),
              "FOCUS": ("self.lineshape.startswith('FOCUS')", True)}
     for r in returns(ff):
         m = txt(r.value).split(".")[-1]
         if m in wantk:
-            conds = [(txt(e), pol) for kind, e, pol in guards.path_conditions(ff.node, r) if kind == "if" and pol]
-            ok = bool(conds) and conds[0] == wantk[m] if m != "RBW" else conds == [wantk[m]]
-            ok = (wantk[m] in conds)
+            conds = [(txt(e), pol) for kind, e, pol in guards.path_conditions(ff.node, r) if kind == "if"]
+            ok = bool(conds) and conds[0] == wantk[m]      # the return's own (innermost) guard
             (ctx.holds if ok else ctx.violation)("C18.4", f"{ACHAIN}:LS.{m} :: tag", where(ff, r), f"LS.{m} ⇐ {wantk[m][0]}" if ok else f"LS.{m} is chosen under {conds}, expected `{wantk[m][0]}`")
     lf, lflow = fn(ss, ACHAIN, "AmplitudeChain.L")
     rl = returns(lf)
